@@ -173,6 +173,24 @@ def gen_near_spec(rng, k):
     return spec
 
 
+def gen_hvf_spec(rng, k):
+    ops = ["boundary_switch", "tree_off_on", "remove_readd", "copy", "restore", "reconfigure_same", "error_once", "tree_off_add_on", "tree_off_remove_on"]
+    modes = [("tree", "none"), ("none", "tree"), ("tree", "tree"), ("none", "linetree")]
+    g, c = modes[(k // len(ops)) % len(modes)]
+    rs = rng.choice(FRIENDLY_RS)
+    spec = {"kind": "hvf", "op": ops[k % len(ops)], "rs": rs, "n": list(rng.choice([(1, 1, 1), (2, 1, 1), (2, 2, 1)])), "boundary": ["periodic", "shear", "open"][(k // 4) % 3],
+            "gravity": g, "collision": c, "seed": rng.randrange(1 << 30), "N": rng.choice([4, 12, 25]), "dt": 0.01, "vel": rng.choice([0.5, 5.0]) * rs}
+    if c != "none":
+        spec["radius"] = 0.01 * rs
+    if g != "none":
+        spec["softening"] = 0.05 * rs
+    if spec["boundary"] == "shear":
+        spec["omega"] = 1.0
+    if spec["boundary"] == "open":
+        spec["vel"] = 0.3 * rs
+    return spec
+
+
 def corner_specs():
     out = []
     # (i) particle exactly on the upper box border, more than one root box: FIXED in /repo da62396 for exact root-cell
@@ -472,7 +490,8 @@ def run(ctx):
     nrest = ctx.scale(84, 560)
     specs = [gen_tree_spec(rng, k) for k in range(ntree)] + [gen_boundary_spec(rng, k) for k in range(nbound)] + \
             [gen_restore_spec(rng, k) for k in range(nrest)] + [gen_ops_spec(rng, k) for k in range(ctx.scale(72, 480))] + \
-            [gen_edges_spec(rng, k) for k in range(ctx.scale(40, 320))] + [gen_near_spec(rng, k) for k in range(ctx.scale(40, 240))] + corner_specs()
+            [gen_edges_spec(rng, k) for k in range(ctx.scale(40, 320))] + [gen_near_spec(rng, k) for k in range(ctx.scale(40, 240))] + \
+            [gen_hvf_spec(rng, k) for k in range(ctx.scale(54, 360))] + corner_specs()
     if ctx.thorough:
         for s in specs:
             if s["kind"] == "tree":
@@ -510,6 +529,8 @@ def run(ctx):
             fk = res["fail"]["key"]
             if spec["kind"] == "corner" and fk in ("crash", "hang", "tree:error", "tree:wf"):
                 fk = spec["key"]
+            if spec["kind"] == "hvf" and fk in ("crash", "hang") and spec["op"] in ("tree_off_add_on", "tree_off_remove_on", "tree_off_on"):
+                fk = "tree:stale_tree_after_mode_switch"
             if fk not in viol:
                 viol[fk] = (spec, res["fail"])
         # ---- Coq cases
